@@ -177,6 +177,7 @@ _run_before_shared_store = run
 
 def run(ctx):
     shared_store(ctx)
+    unpack_of_stored_gather(ctx)
     _run_before_shared_store(ctx)
     # write -> read-back -> consumer is an ordering of three calls of the physical plan: it holds in a run only if the engine starts every
     # call once and after all of its predecessors, under every schedule (a call released twice lets a consumer start before the read-back)
@@ -234,3 +235,47 @@ def shared_store(ctx):
             if got != want:
                 ctx.fail("shared-store:read-order", "one store registered for two source nodes, the second ordered after an updating call: consumer received %r, "
                          "expected %r" % (got, want), {"max_workers": workers, "registration_order": order})
+
+
+def unpack_of_stored_gather(ctx):
+    """plan.gather([...]) registered with a store, then plan.unpack(node, n) (registered before or after the unpack): the consumers of the
+    unpacked items see the items of what the store READS BACK, after the write - never the in-memory items."""
+    import datetime as dt
+    uj = core.use_repo()
+    for when in ("registered before unpack", "registered after unpack"):
+        for kind in ("list", "tuple"):
+            for workers in (1, 3):
+                events = []
+
+                class Upper(uj.ValueStore):
+                    def __init__(self):
+                        self.v, self.t = None, None
+
+                    def read(self):
+                        events.append("read")
+                        return [("stored:" + x.upper()) for x in self.v]
+
+                    def write(self, v):
+                        events.append("write")
+                        self.v, self.t = list(v), dt.datetime(2021, 1, 1)
+
+                    def get_modified_time(self):
+                        return self.t
+                plan, reg = uj.Plan(), uj.Registry()
+                a, b = plan.call(lambda: "a"), plan.call(lambda: "b")
+                pair = plan.gather([a, b] if kind == "list" else (a, b))
+                st = Upper()
+                if when.startswith("registered before"):
+                    reg.add(pair, st)
+                x, y = plan.unpack(pair, 2)
+                if not when.startswith("registered before"):
+                    reg.add(pair, st)
+                out = plan.call(lambda p, q: events.append("consume") or [p, q], x, y)
+                ctx.case(("c09-unpack-of-stored-gather", when, kind, workers))
+                try:
+                    res = uj.run(plan, registry=reg, output=out, max_workers=workers, progress=None)
+                except BaseException as e:      # noqa
+                    res = "raised %s: %r" % (type(e).__name__, getattr(e, "__cause__", None))
+                if res != ["stored:A", "stored:B"] or events[:3] != ["write", "read", "consume"]:
+                    ctx.fail("unpack-of-stored-gather", "gather(%s of two calls) %s, its items unpacked and consumed (max_workers=%d): run gave %r with store/consumer events %r; "
+                             "expected ['stored:A', 'stored:B'] after write, read, consume" % (kind, when, workers, res, events), {"when": when, "container": kind, "max_workers": workers})
